@@ -100,7 +100,7 @@ def handle (j : Json) : Except String Json := do
   | "run" => do
     match ← j.getObjValAs? String "cmd" with
     | "put" => World.runPutWorld j
-    | c => throw s!"unknown cmd {c}"
+    | c => World.runOther c j
   | "normpath" => do pure (Json.mkObj [("r", jhex (normpath (← hexOf j "s")))])
   | "dirname" => do pure (Json.mkObj [("r", jhex (dirname (← hexOf j "s")))])
   | "basename" => do pure (Json.mkObj [("r", jhex (basename (← hexOf j "s")))])
